@@ -5,6 +5,7 @@ package drivers
 // credential class; an impostor plugin announces one certificate and serves with another.
 
 import (
+	plugin "github.com/hashicorp/go-plugin"
 	"bufio"
 	"context"
 	"crypto/ecdsa"
@@ -236,10 +237,32 @@ func runMTLSCase(c mtCase, bin, tmp string) map[string]interface{} {
 		if c.Impostor == "chain" {
 			mode = "chain" // announces X, serves with its own key pair Y and appends X to the chain it presents
 		}
+		if c.Impostor == "replay" {
+			// the same ClientConfig value is used for two launches: the first plugin is honest (announces and
+			// serves A); the second announces a fresh certificate but serves A again
+			mode = "replay"
+			extra = append(extra, "VPLUGIN_IMPOSTOR_STATE="+filepath.Join(tmp, c.Name+".state"))
+		}
 		extra = append(extra, "VPLUGIN_IMPOSTOR="+mode)
 	}
 	p := vp.NewPair(bin, hc, pc, extra, nil)
-	defer p.Client.Kill()
+	if c.Kind == "impostor" && c.Impostor == "replay" {
+		os.Remove(filepath.Join(tmp, c.Name+".state"))
+		stub0, cp0, err0 := p.Dispense()
+		firstOK := err0 == nil && cp0.Ping() == nil
+		if firstOK {
+			_, e := stub0.Do(vp.Cmd{Op: "tag"})
+			firstOK = e == nil
+		}
+		out["first_launch_ok"] = firstOK
+		p.Client.Kill()
+		// the second launch: the config value of the first, a fresh command with the same environment
+		p2 := vp.NewPair(bin, hc, pc, extra, nil)
+		p.Config.Cmd = p2.Cmd
+		p.Cmd = p2.Cmd
+		p.Client = plugin.NewClient(p.Config)
+	}
+	defer func() { p.Client.Kill() }()
 	addr, err := p.Client.Start()
 	if err != nil {
 		out["err"] = err.Error()
